@@ -221,6 +221,9 @@ class Interp:
         return False
 
     def _vmeth(self, visitor: AObj, name: str) -> Func | None:
+        if name in visitor.attrs:
+            # an instance attribute hides the method of the class (`self.visitX = ...`): the dispatch of the tree walker would use it
+            raise Unsupported(f"{visitor.cls.name}.{name} is set on the instance; visitor methods stored on instances are not modelled")
         return self.repo.find_method(visitor.cls, name)
 
     def visit_dispatch(self, visitor: Any, ctx: Any) -> Any:
